@@ -1,3 +1,5 @@
+//go:build !skip_c13
+
 package props
 
 import (
